@@ -187,7 +187,7 @@ def what(tag, toks, d):
     cfg, ops = decode(toks)
     at = next((s for k, _, s in ops if k == d[1]), "?")
     if len(d) > 4 and d[4] == 1:
-        return "%s (cache=%s, BINDING caps per-peer=%s global=%s records=%s; weak monitor: nothing expired/removed returned, |Addrs(p)| <= cap + 2k, GC leaves nothing expired): clause %s fails at op %d: %s" % (
+        return "%s (cache=%s, BINDING caps per-peer=%s global=%s records=%s; weak monitor: nothing expired/removed returned, |Addrs(p)| <= cap + 2k, GC leaves nothing expired, the address named last by a write batch that fits under the cap is returned until its deadline): clause %s fails at op %d: %s" % (
             cfg["store"], cfg["cache"], cfg["per_peer_cap"], cfg["global_cap"], cfg["record_cap"], CLAUSE.get(d[2]), d[1], at)
     roots = roots_of(d)
     rs = "; ".join("op %d %s [%s; stale_entry=%d lapsed_record=%d record_suffix=%d result=%d]" % (r[0], OPN.get(r[1], r[1]), reason_of(d[3], r), r[2], r[3], r[4], r[5]) for r in roots[:4])
@@ -220,7 +220,7 @@ if __name__ == "__main__":
              "{-1,0,10s,2m,15m,30m,1h,connected,permanent}: AddAddr(s)/SetAddr(s)/record batches of 1-4 with own/foreign /p2p suffixes, one in five naming an address twice (plainly, or once with /p2p/<self>), UpdateAddrs between "
              "classes, ClearAddrs, ConsumePeerRecord with real sealed envelopes (lower/equal/higher seq, empty, wrong signer), clock advances "
              "(exactly TTL, TTL-1, small, 0), GC runs, close/reopen; every history is run on pstoremem and on pstoreds (cache 0 / >0, full-purge / "
-             "lookahead GC), one in five with binding caps; plus reopen inserted after every (3rd) prefix. Deadline-directed histories: a shadow book steers writes and clock advances relative to the deadlines assigned so far (re-add with a smaller TTL class late enough that now+ttl outlives the old deadline, or too early to; UpdateAddrs(old == new) as a refresh; UpdateAddrs to another class; SetAddrs late in the life; connected and back), and the clock is walked to one second before / exactly on / just after / between the old and new deadlines with reads (Addrs, PeersWithAddrs, GetPeerRecord, GC, close+reopen) there, on pstoremem and pstoreds with cache off and on. Binding per-peer caps (1-3): fixed cases and histories built around batches that mix overrides of connected-class entries with new finite addresses, batches larger than the cap, connected->finite moves followed by insertions, on pstoremem and pstoreds (cache off/on) with the same cap; judged by the weak monitor (soundness + |Addrs(p)| <= cap + 2k); how often the two books differ is counted. Every answer is compared with the "
+             "lookahead GC), one in five with binding caps; plus reopen inserted after every (3rd) prefix. Deadline-directed histories: a shadow book steers writes and clock advances relative to the deadlines assigned so far (re-add with a smaller TTL class late enough that now+ttl outlives the old deadline, or too early to; UpdateAddrs(old == new) as a refresh; UpdateAddrs to another class; SetAddrs late in the life; connected and back), and the clock is walked to one second before / exactly on / just after / between the old and new deadlines with reads (Addrs, PeersWithAddrs, GetPeerRecord, GC, close+reopen) there, on pstoremem and pstoreds with cache off and on. Binding per-peer caps (1-3): fixed cases and histories built around batches that mix overrides of connected-class entries with new finite addresses, batches larger than the cap, connected->finite moves followed by insertions, on pstoremem and pstoreds (cache off/on) with the same cap; judged by the weak monitor (soundness + |Addrs(p)| <= cap + 2k + 'the most recent assignment is kept'); how often the two books differ is counted. Victim-renamed histories (caps 2-4): the cap is filled by single insertions one second apart, then ONE AddAddrs/SetAddrs batch that fits under the cap names new address(es) and after them the stored entry with the nearest expiry (the cap's eviction victim), optionally other stored entries and repeated names, with reads right after, one second before the batch's deadline and on it. Every answer is compared with the "
              "Coq model of that store (conform_case) and judged against the abstract book by the property monitor (monitor_case).",
         describe=describe, key=key, what=what, crosscheck=150,
     ))
